@@ -69,7 +69,7 @@ def apply_delete(doc, ptext):
 def model_set(doc, segs, value):
     """-> ('doc', canon, n) | ('unspecified', why) | ('error',) | ('nomatch',)"""
     try:
-        ctxs = refedit.matched(doc, segs)
+        ctxs = refedit.matched(doc, segs, expand_slices=True)
     except refquery.Unspecified as ex:
         return ("unspecified", str(ex))
     except refquery.ExpectError:
@@ -84,7 +84,7 @@ def model_set(doc, segs, value):
 
 def model_delete(doc, segs):
     try:
-        ctxs = refedit.matched(doc, segs)
+        ctxs = refedit.matched(doc, segs, expand_slices=True)
     except refquery.Unspecified as ex:
         return ("unspecified", str(ex))
     except refquery.ExpectError:
